@@ -116,7 +116,8 @@ def oracle(c, h=2.0 ** -12):
     d = lg.build(L)
     s = np.array(fl(c['s']))
     p = np.array(fl(c['p']))
-    g = np.array(d.deriv(s, p)).reshape(-1) * np.ones(L['n'])
+    g = np.array(core.maybe_stale(c, d.deriv, s, p)).reshape(-1) * np.ones(L['n'])   # same calling mode as observe()
+    d = lg.build(L)          # differences of the cost on a fresh twin, fresh arrays
   except Exception as e:
     return 'implementation raised %s: %s' % (type(e).__name__, e)
   if L['cls'] == 'ADevice' and 'demand' in lg.fn_kinds(L['f']):
